@@ -94,6 +94,27 @@ pub fn one_scenario(rep: &Report, idx: usize, sc: &Scenario, keep: bool) -> Opti
             }
             rep.count("clones_with_seeds_judged", 1);
             rep.count("output_writes_observed", o.writes.len() as u64);
+            // The same clone with a transient I/O error on one output write (often while a
+            // seed is being consumed): whatever happens, success must still mean "exact".
+            if oi == 0 && !o.writes.is_empty() {
+                let mut frng = Rng::new(sc.src_seed ^ 0xfa17);
+                for fi in 0..2 {
+                    let k = frng.usize_below(o.writes.len());
+                    cc::prepare_output(&b, sc);
+                    let of = cc::run_clone(&dir, &b, sc, &format!("fault{}", fi), &Faults { fault: Some(format!("0,{},errno,{}", k, if fi == 0 { libc::ENOSPC } else { libc::EIO })), ..Default::default() });
+                    rep.eval();
+                    if of.exit == Exit::Timeout || !of.fault_fired {
+                        rep.inconclusive("fault run: watchdog / fault did not fire");
+                        continue;
+                    }
+                    rep.count("clones_with_transient_write_error", 1);
+                    if of.exit.ok() {
+                        if let Err(why) = cc::judge_final(&b, sc, &of) {
+                            return Err(format!("with a transient error on output write #{} the clone reported success but {}", k, why));
+                        }
+                    }
+                }
+            }
         }
         rep.count("reused_bytes_predicted", b.pred.reused_bytes);
         rep.seen("seed_shapes", format!("{}{}", sc.seeds.iter().map(|d| d.name()).collect::<Vec<_>>().join("+"), if sc.stdin_seed.is_some() { "+stdin" } else { "" }));
